@@ -88,6 +88,14 @@ def y12(model: Model, rep: Report):
                 v = None
             if v is not None and v[0] == "attr" and v[1] == sym(g.self_name):
                 names[v[2]] = kind
+    # functions of the package the accessor calls by plain name (a helper its statements moved into): interpreted with it
+    from ..model import FunctionInfo as _FI
+    helpers = {}
+    for nd_ in ast.walk(f.node):
+        if isinstance(nd_, ast.Call) and isinstance(nd_.func, ast.Name):
+            tg_ = model.lookup_symbol(f.module, nd_.func.id)
+            if isinstance(tg_, _FI) and tg_.kind == "function":
+                helpers[nd_.func.id] = tg_.node
     bad = None
     n = 0
     try:
@@ -96,7 +104,7 @@ def y12(model: Model, rep: Report):
                 data = [Sym(f"d{i}") for i in range(nd)]
                 anc = [Sym(f"a{i}") for i in range(na)]
                 attrs = {nm: (list(data) if k == "d" else list(anc)) for nm, k in names.items()}
-                out = ListInterp(attrs, self_name=f.self_name).run(f.node)
+                out = ListInterp(attrs, self_name=f.self_name, functions=helpers).run(f.node)
                 n += 1
                 if not isinstance(out, (list, tuple)):
                     bad = bad or f"{nd} data / {na} ancilla qubits: the accessor returns {type(out).__name__}"
